@@ -118,6 +118,21 @@ fn evaluate_inner(plan: &Plan, out: &RunOut, obs: &mut Vec<Violation>) -> Vec<Vi
             vs.push(v(p, &format!("{pre}.stream_identity"), format!("server accepted a stream with {g}"), ""));
         }
     }
+    if plan.family == "sparse" {
+        // nothing but a handful of single losses and both peers alive: every accept on the server
+        // should correspond to a stream a client application opened.  A further accept hands the
+        // server application a stream nobody opened (made from a retransmitted first-flight
+        // datagram after the real stream was released), which then ends in an error or repeats
+        // the request bytes.
+        for g in &out.app.ghosts {
+            if g.starts_with("error_before_header") || g.starts_with("eof_before_header") {
+                // about 15 per 1000 sparse runs on the unchanged tree: one more face of the known
+                // finding (the acceptor builds streams from unauthenticated/late first-flight
+                // datagrams), so counted, not a verdict of its own
+                obs.push(v(p, &format!("{pre}.ghost_accept_under_sparse_loss"), format!("server application was handed a stream no client opened: {g} ; faults fired {:?}", out.stats.fired), ""));
+            }
+        }
+    }
     let all_headers_written = plan.clients.iter().enumerate().all(|(ci, c)| {
         (0..c.streams.len()).all(|si| {
             out.app.actors.get(&(ci as u8, si as u8, ROLE_CW)).map_or(false, |a| a.done && !(is_err(a) && a.last_op == "write_header") && a.end != "no_stream")
@@ -182,7 +197,7 @@ fn evaluate_inner(plan: &Plan, out: &RunOut, obs: &mut Vec<Violation>) -> Vec<Vi
 
     // ---- errors without any cause
     let fired: u64 = out.stats.fired.values().sum();
-    let quiet_family = plan.family == "clean" || plan.family == "finite" || plan.family == "forge";
+    let quiet_family = plan.family == "clean" || plan.family == "finite" || plan.family == "forge" || plan.family == "sparse";
     if quiet_family {
         for (k, a) in &out.app.actors {
             if !is_err(a) {
@@ -192,6 +207,10 @@ fn evaluate_inner(plan: &Plan, out: &RunOut, obs: &mut Vec<Violation>) -> Vec<Vi
             let app_drop = sp.req.r_drop_at.is_some() || sp.resp.r_drop_at.is_some();
             if fired == 0 && !app_drop {
                 vs.push(v(p, &format!("{pre}.error_without_fault"), describe(k, a), ""));
+            } else if !app_drop && plan.family == "sparse" {
+                // a few single losses at the start of a short exchange, both peers alive, nobody
+                // gives up a half early: the stream has to complete
+                vs.push(v(p, &format!("{pre}.error_under_sparse_loss"), format!("{} ; faults fired {:?}", describe(k, a), out.stats.fired), ""));
             } else if !app_drop {
                 obs.push(v(p, &format!("{pre}.error_under_finite_faults"), format!("{} ; faults fired {:?}", describe(k, a), out.stats.fired), ""));
             }
